@@ -208,6 +208,17 @@ def handle (req : J) : Except String J := do
     let fs ← decFields (← field req "in")
     pure (resJ (fun (ps : List (String × String)) =>
       Lean.Json.arr (ps.map (fun (k, p) => Lean.Json.arr #[.str k, .str p])).toArray) (stringFieldPaths fs))
+  | "kwargs" => do
+    let items ← decStrs (← field req "in")
+    pure (resJ (fun (kv : List (String × String)) =>
+      Lean.Json.arr (kv.map (fun (k, v) => Lean.Json.arr #[.str k, .str v])).toArray) (CliArgs.parseKwargs items))
+  | "splitpattern" => do
+    let parts ← decStrs (← field req "in")
+    let r := CliArgs.splitPattern parts
+    pure (okJ (Lean.Json.arr #[encStrs r.1, encStrs r.2]))
+  | "modeltuple" => do
+    let xs ← decStrs (← field req "in")
+    pure (resJ (fun (t : String × String × String) => Lean.Json.arr #[.str t.1, .str t.2.1, .str t.2.2]) (CliArgs.modelTuple xs))
   | "closure" => do
     let n ← asNat (← field req "n")
     let edges ← (← asArr (← field req "edges")).toList.mapM (fun e => do
